@@ -75,7 +75,11 @@ func (e *Exec) afterCommitChecks(rec *BlockRec) {
 	for _, sec := range []string{"aol/", "did/", "pnft/"} {
 		if d := DiffFlat(want, ex.Flat, sec, 4); len(d) > 0 {
 			key := strings.SplitN(d[0], " ", 3)[1]
-			e.viol(propOfSection(key), "state.diverges_from_model.committed."+strings.TrimSuffix(sec, "/"), "", "committed state at height %d differs from the model: %s", h, strings.Join(d, " ; "))
+			cprop := propOfSection(key)
+			if cprop == "C03" && strings.Contains(d[0], "want tomb") {
+				cprop = "C05"
+			}
+			e.viol(cprop, "state.diverges_from_model.committed."+strings.TrimSuffix(sec, "/"), "", "committed state at height %d differs from the model: %s", h, strings.Join(d, " ; "))
 			e.resync(r0.CommittedStores())
 			break
 		}
